@@ -78,6 +78,19 @@ def work(task):
         big = Molecule(text)
         total = 0.0
         want_total = 0.0
+        if task.get("same_unit"):
+            # two consecutive blocks of the SAME unit: a chain of n units is produced by every split (k, n - k); the probabilities add up
+            for n in range(2, task["nmax"] + 1):
+                want = sum(closed_form(blocks, (k, n - k)) for k in range(1, n))
+                smi = member_smiles(prefix, blocks, (1, n - 1), suffix)
+                got = float(get_ensemble_prob(smi, big)[0])
+                evals += 1
+                distinct.add((text, n))
+                if abs(got - want) > 1e-6 + 1e-6 * want:
+                    viol.append({"key": K + "[closed-form]", "clause": "the reported probability equals the generation probability: summed over all ways to split the chain between two blocks of the same unit",
+                                 "detail": {"units": n, "smiles": smi, "got": got, "want": want}, "input": inp})
+                    break
+            return _finish(evals, distinct, viol, samples)
         for counts in itertools.product(range(1, task["nmax"] + 1), repeat=len(blocks)):
             want = closed_form(blocks, counts)
             if want < 1e-7 and sum(counts) > len(blocks):
@@ -155,6 +168,8 @@ def run(tier="quick", seed=0):
         tasks.append({"prefix": "[H]", "suffix": "CO", "blocks": [("A", (fam, par))], "nmax": nmax, "seed": seed, "renumber": 2, "check_sum": fam in ("gauss", "uniform", "poisson")})
     tasks.append({"prefix": "OCC", "suffix": "[Si]", "blocks": [("A", ("gauss", (100.0, 20.0))), ("B", ("gauss", (80.0, 15.0)))], "nmax": 4, "seed": seed, "renumber": 1})
     tasks.append({"prefix": "[H]", "suffix": "CO", "blocks": [("A", ("uniform", (50, 150))), ("D", ("poisson", (90.0,)))], "nmax": 4, "seed": seed, "renumber": 1})
+    tasks.append({"prefix": "[H]", "suffix": "CO", "blocks": [("A", ("gauss", (150.0, 20.0))), ("A", ("gauss", (110.0, 25.0)))], "nmax": 10, "seed": seed, "renumber": 0, "same_unit": True})
+    tasks.append({"prefix": "OCC", "suffix": "[Si]", "blocks": [("B", ("uniform", (40, 160))), ("B", ("gauss", (90.0, 20.0)))], "nmax": 8, "seed": seed, "renumber": 0, "same_unit": True})
     tasks.append({"prefix": "[H]", "suffix": "F", "blocks": [("A", ("schulz_zimm", (150.0, 120.0))), ("B", ("schulz_zimm", (100.0, 80.0)))], "nmax": 3, "seed": seed, "renumber": 0})
     tasks.append({"prefix": "OCC", "suffix": "[Si]", "blocks": [("A", ("gauss", (60.0, 10.0))), ("B", ("uniform", (40, 100))), ("D", ("gauss", (70.0, 12.0)))], "nmax": 2, "seed": seed, "renumber": 0})
     # end-group initiated chains: both start groups give the same molecule, so the probability is again the closed form
